@@ -578,6 +578,7 @@ func isRecvField(e ast.Expr, recv string) (string, bool) {
 // recognises, in fn,
 //
 //	name := make([]string, len(R.F)) ; for i := range R.F { name[i] = R.F[i].M() }
+//	                                   (or  for i, c := range R.F { name[i] = c.M() })
 //
 // (R the receiver, the loop body exactly that assignment, the range over the whole slice): the list of M() of
 // EVERY element of R.F  ->  CAllOf "F.M"
@@ -606,8 +607,16 @@ func (p *pkgInfo) allOfPattern(name string, def ast.Expr, fn *ast.FuncDecl, recv
 			}
 		}
 		rs, ok := x.(*ast.RangeStmt)
-		if !ok || rs.Value != nil || rs.Key == nil || rs.Tok != token.DEFINE {
+		if !ok || rs.Key == nil || rs.Tok != token.DEFINE {
 			return true
+		}
+		valName := ""
+		if rs.Value != nil {
+			vid, ok := rs.Value.(*ast.Ident)
+			if !ok || vid.Name == "_" {
+				return true
+			}
+			valName = vid.Name
 		}
 		f2, ok := isRecvField(rs.X, recv)
 		if !ok || f2 != field || len(rs.Body.List) != 1 {
@@ -631,6 +640,11 @@ func (p *pkgInfo) allOfPattern(name string, def ast.Expr, fn *ast.FuncDecl, recv
 		}
 		sel, ok := call.Fun.(*ast.SelectorExpr)
 		if !ok {
+			return true
+		}
+		// the element: R.F[i], or the range value c of `for i, c := range R.F`
+		if valName != "" && isIdent(sel.X, valName) {
+			res, found = catExpr{"CAllOf", field + "." + sel.Sel.Name}, true
 			return true
 		}
 		el, ok := sel.X.(*ast.IndexExpr)
@@ -670,6 +684,7 @@ func (p *pkgInfo) elemOfPattern(call *ast.CallExpr, fn *ast.FuncDecl, recv strin
 // elemSource: is the expression e (occurring in fn) an element of the receiver's slice R.F?
 //   - R.F[i]
 //   - a local variable v that is only ever assigned inside  for _, c := range R.F { ... v = c ... }
+//   - a local variable v assigned once from a receiver method that returns nil or such an element (helperAssigned)
 //   - a parameter of fn, when the argument at the call site under analysis is such an element (ctx)
 func (p *pkgInfo) elemSource(e ast.Expr, fn *ast.FuncDecl, recv string, ctx *substCtx, depth int) (string, bool) {
 	if depth > 6 {
@@ -709,9 +724,161 @@ func (p *pkgInfo) elemSource(e ast.Expr, fn *ast.FuncDecl, recv string, ctx *sub
 			}
 			return p.elemSource(a, ctx.fn, ctx.recv, ctx.parent, depth+1)
 		}
-		return p.loopAssigned(v.Name, fn, recv)
+		if f, ok := p.loopAssigned(v.Name, fn, recv); ok {
+			return f, true
+		}
+		return p.helperAssigned(v.Name, fn, recv, depth)
 	}
 	return "", false
+}
+
+// helperAssigned: the local variable is assigned exactly once, as  name := R.m(..)  (or `var name T = R.m(..)`,
+// `name = R.m(..)`), where every return statement of the receiver method m returns nil or an element of R.F
+// (the value variable of a `for _, c := range R.F` loop around it, or R.F[i])
+func (p *pkgInfo) helperAssigned(name string, fn *ast.FuncDecl, recv string, depth int) (string, bool) {
+	var rhs []ast.Expr
+	bad := false
+	ast.Inspect(fn.Body, func(x ast.Node) bool {
+		switch t := x.(type) {
+		case *ast.AssignStmt:
+			for i, l := range t.Lhs {
+				if isIdent(l, name) {
+					if len(t.Lhs) == len(t.Rhs) {
+						rhs = append(rhs, t.Rhs[i])
+					} else {
+						bad = true
+					}
+				}
+			}
+		case *ast.ValueSpec:
+			for i, id := range t.Names {
+				if id.Name == name {
+					if i < len(t.Values) {
+						rhs = append(rhs, t.Values[i])
+					}
+				}
+			}
+		case *ast.UnaryExpr:
+			if t.Op == token.AND && isIdent(t.X, name) {
+				bad = true
+			}
+		}
+		return true
+	})
+	if bad || len(rhs) != 1 {
+		return "", false
+	}
+	call, ok := rhs[0].(*ast.CallExpr)
+	if !ok {
+		return "", false
+	}
+	se, ok := call.Fun.(*ast.SelectorExpr)
+	if !ok || !isIdent(se.X, recv) {
+		return "", false
+	}
+	// the struct the receiver belongs to: look the method up on the receiver type of fn (with embedding)
+	rt := ""
+	if fn.Recv != nil && len(fn.Recv.List) == 1 {
+		t := fn.Recv.List[0].Type
+		if st, ok := t.(*ast.StarExpr); ok {
+			t = st.X
+		}
+		if id, ok := t.(*ast.Ident); ok {
+			rt = id.Name
+		}
+	}
+	m, _ := p.findMethod(rt, se.Sel.Name)
+	if m == nil || m.Body == nil {
+		return "", false
+	}
+	return p.returnsElem(m, depth)
+}
+
+// returnsElem: every return statement of m (function literals excluded) returns exactly one value, which is nil or an
+// element of the receiver's slice R.F; at least one returns an element
+func (p *pkgInfo) returnsElem(m *ast.FuncDecl, depth int) (string, bool) {
+	mrecv := p.recvVar[m]
+	if mrecv == "" || m.Type.Results == nil || len(m.Type.Results.List) != 1 || len(m.Type.Results.List[0].Names) > 1 {
+		return "", false
+	}
+	if len(m.Type.Results.List[0].Names) == 1 {
+		return "", false // named result: assignments to it would have to be followed
+	}
+	field, ok, elems := "", true, 0
+	var ranges []*ast.RangeStmt
+	var visit func(n ast.Node)
+	visit = func(n ast.Node) {
+		ast.Inspect(n, func(x ast.Node) bool {
+			switch t := x.(type) {
+			case *ast.FuncLit:
+				return false
+			case *ast.RangeStmt:
+				if x == n {
+					return true
+				}
+				ranges = append(ranges, t)
+				visit(t.Body)
+				ranges = ranges[:len(ranges)-1]
+				return false
+			case *ast.ReturnStmt:
+				if len(t.Results) != 1 {
+					ok = false
+					return true
+				}
+				if isIdent(t.Results[0], "nil") {
+					return true
+				}
+				f := ""
+				switch r := t.Results[0].(type) {
+				case *ast.Ident:
+					// the value variable of an enclosing range over R.F, not reassigned in its body
+					for i := len(ranges) - 1; i >= 0; i-- {
+						rs := ranges[i]
+						if vid, isid := rs.Value.(*ast.Ident); rs.Value != nil && isid && vid.Name == r.Name {
+							if ff, isf := isRecvField(rs.X, mrecv); isf && !assignedIn(rs.Body, r.Name) {
+								f = ff
+							}
+							break
+						}
+					}
+				case *ast.IndexExpr:
+					if ff, isf := isRecvField(r.X, mrecv); isf {
+						f = ff
+					}
+				}
+				if f == "" || (field != "" && field != f) {
+					ok = false
+					return true
+				}
+				field = f
+				elems++
+			}
+			return true
+		})
+	}
+	visit(m.Body)
+	if !ok || elems == 0 {
+		return "", false
+	}
+	return field, true
+}
+
+func assignedIn(body ast.Node, name string) bool {
+	found := false
+	ast.Inspect(body, func(x ast.Node) bool {
+		if as, ok := x.(*ast.AssignStmt); ok {
+			for _, l := range as.Lhs {
+				if isIdent(l, name) {
+					found = true
+				}
+			}
+		}
+		if ue, ok := x.(*ast.UnaryExpr); ok && ue.Op == token.AND && isIdent(ue.X, name) {
+			found = true
+		}
+		return true
+	})
+	return found
 }
 
 // loopAssigned: the local variable name is only ever assigned as  name = c  inside  for _, c := range R.F {...}
